@@ -274,6 +274,54 @@ theorem getCharToken_range {r : Str} (hn : NoNul r) {v udf : Str} {e : Nat} {r' 
       (ut.mono (fun c hc' => by simpa using hc') (fun _ h => h))
   · simp [h3] at h
 
+/-! ### getHeader -/
+
+theorem classify_op_nonempty {r : Str} (h : classifyChar (hd r) = .op) : ∃ c t, r = c :: t := by
+  cases r with
+  | nil =>
+    have : classifyChar NUL = .none := by decide +kernel
+    simp only [hd_nil] at h
+    rw [this] at h; cases h
+  | cons c t => exact ⟨c, t, rfl⟩
+
+/-- `getHeader` (the `#include` path; repaired together with FL1) stays inside the buffer -/
+theorem getHeader_ok (r : Str) (hn : NoNul r) : ∃ v e r', getHeader r = .ok (v, e, r') ∧ Suffix r' r := by
+  obtain ⟨r1, e1, s1⟩ := skipWhitespace_ok r
+  have hn1 : NoNul r1 := hn.suffix s1
+  by_cases h0 : hd r1 = NUL
+  · refine ⟨[], 1, r1, ?_, s1⟩
+    simp only [getHeader, shallowPeek, bind, Except.bind, pure, Except.pure, e1]
+    simp [h0]
+  · by_cases hp : isPrimitiveAt r1 = true
+    · refine ⟨[], 1, r1, ?_, s1⟩
+      simp only [getHeader, shallowPeek, bind, Except.bind, pure, Except.pure, e1]
+      simp [h0, hp]
+    · have hsp : shallowPeek r = .ok (classifyChar (hd r1), r1) := by
+        simp only [shallowPeek, bind, Except.bind, pure, Except.pure, e1]
+        simp [h0, hp]
+      cases hc : classifyChar (hd r1) with
+      | str enc =>
+        obtain ⟨v, ok, e, r2, eg, s2, _⟩ := getString_ok 0 r1 hn1
+        refine ⟨v, e, r2, ?_, s2.trans s1⟩
+        simp only [getHeader, hsp, hc, bind, Except.bind, pure, Except.pure, eg]
+        simp
+      | op =>
+        obtain ⟨c, t, rfl⟩ := classify_op_nonempty hc
+        simp only [hd_cons] at hc hsp
+        obtain ⟨r3, e3, s3⟩ := skipTo_ok ['>', '\n'] t
+        by_cases h3 : hd r3 = '>'
+        · obtain ⟨t3, rfl⟩ := ne_nil_of_hd h3 (by decide)
+          refine ⟨consumed t ('>' :: t3), 0, t3, ?_, (((Suffix.refl t3).cons '>').trans s3).cons c |>.trans s1⟩
+          simp only [getHeader, hsp, hc, bind, Except.bind, pure, Except.pure, adv_cons_one, e3, hd_cons]
+          simp
+        · refine ⟨[], 1, r3, ?_, (s3.cons c).trans s1⟩
+          simp only [getHeader, hsp, hc, bind, Except.bind, pure, Except.pure, adv_cons_one, e3]
+          simp [h3]
+      | none | ident | prim | newline | chr enc =>
+        refine ⟨[], 1, r1, ?_, s1⟩
+        simp only [getHeader, hsp, hc, bind, Except.bind, pure, Except.pure]
+        simp
+
 /-- the double quote, for use where a bare quote character would unbalance a line -/
 abbrev DQ : Char := '"'
 
